@@ -126,6 +126,100 @@ fn run(ctx: &mut Ctx) {
             ctx.nontrivial(d.0);
         }
     });
+    // ---- 1a. shaped waveforms the random pulse generator does not make: a long negative run followed by a positive-only
+    // tail (every grid setting then fits worse than "no avalanche"); a large early pulse whose response ends inside the
+    // waveform (the last response bin is positive) over small noise; one-signed, alternating and constant waveforms
+    let n = ctx.tier.pick(3000, 150_000);
+    ctx.cases("shaped-pads", n, |ctx, i, rng| {
+        ctx.eval();
+        let round = rng.bool();
+        let fin = |x: f64| if round { x.round() } else { x };
+        let sig: Vec<f64> = match i % 6 {
+            0 | 1 => {
+                let lead = rng.usize(20);
+                let run = 12 + rng.usize(50);
+                let tail = 1 + rng.usize(40);
+                let lo = 10f64.powf(rng.range(0.0, 2.7));
+                let hi = 10f64.powf(rng.range(0.0, 2.5));
+                let mut v: Vec<f64> = (0..lead).map(|_| fin(3.0 * rng.gauss())).collect();
+                v.extend((0..run).map(|_| fin(-(0.5 + rng.range(0.0, lo)))));
+                v.extend((0..tail).map(|_| fin(rng.range(0.0, hi))));
+                v
+            }
+            2 | 3 => {
+                let len = 386 + rng.usize(315);
+                let a = rng.range(2000.0, 12000.0);
+                let k = rng.usize(len - 385);
+                let sigma = *rng.pick(&[0.0, 1.0, 5.0, 10.0]);
+                let mut v = vec![0.0f64; len];
+                for (j, r) in m.pr.iter().enumerate() {
+                    if k + j < len {
+                        v[k + j] += a * r;
+                    }
+                }
+                for x in v.iter_mut() {
+                    *x = fin(*x + sigma * rng.gauss());
+                }
+                // the sample under the last (positive) response bin: small and non-negative, its neighbours negative
+                let j = k + m.pr.len() - 1;
+                if j < len && i % 6 == 3 {
+                    v[j] = fin(rng.range(0.0, 0.0021 * a));
+                    for d in 1..=12 {
+                        if j + d < len {
+                            v[j + d] = fin(-rng.range(0.5, 12.0));
+                        }
+                        if j >= d && v[j - d] >= 0.0 {
+                            v[j - d] = fin(-rng.range(0.5, 12.0));
+                        }
+                    }
+                }
+                v
+            }
+            4 => {
+                let len = 1 + rng.usize(200);
+                let c = rng.range(-50.0, 50.0);
+                match rng.below(4) {
+                    0 => vec![fin(c); len],
+                    1 => (0..len).map(|k| fin(if k % 2 == 0 { c } else { -c })).collect(),
+                    2 => (0..len).map(|_| fin(-rng.range(0.0, 100.0))).collect(),
+                    _ => (0..len).map(|_| fin(rng.range(0.0, 100.0))).collect(),
+                }
+            }
+            _ => {
+                // a genuine pulse cut off by the end of the waveform, over a sloping baseline
+                let len = 20 + rng.usize(120);
+                let mut v = gen_waveform(rng, &m.pr, len);
+                let slope = rng.range(-0.5, 0.5);
+                for (k, x) in v.iter_mut().enumerate() {
+                    *x = fin(*x + slope * k as f64);
+                }
+                v
+            }
+        };
+        let len = sig.len();
+        let got = match guard(|| vh::pad_deconvolution(&sig)) {
+            Ok(g) => g,
+            Err(p) => {
+                ctx.panic_violation("pad_deconvolution", &p, json!({"signal_bits": bits(&sig)}));
+                return;
+            }
+        };
+        let exp = naive_ls(&sig, &m.pr, 3..=5, 7..=12);
+        let exp = if exp.is_empty() { vec![0.0; len] } else { exp };
+        if got.len() != len || got.iter().any(|v| !v.is_finite() || *v < 0.0) {
+            ctx.violation("pad deconvolution: wrong length, negative or non-finite amplitude", format!("len {}", len), json!({"signal_bits": bits(&sig)}));
+            return;
+        }
+        if bits(&got) != bits(&exp) {
+            let k = got.iter().zip(&exp).position(|(a, b)| a.to_bits() != b.to_bits()).unwrap_or(0);
+            ctx.violation("pad deconvolution differs from the plain greedy definition", format!("shaped waveform (kind {}) of {} samples, first difference at sample {}: {:e} vs {:e}", i % 6, len, k, got[k], exp[k]), json!({"signal_bits": bits(&sig)}));
+            return;
+        }
+        ctx.count(&format!("shaped pad waveforms bit-identical to the naive definition (kind {})", i % 6));
+        if got.iter().any(|v| *v > 0.0) {
+            ctx.count("shaped pad waveforms with >= 1 non-zero output");
+        }
+    });
     // ---- 1b. short waveforms: every length 1..=40 (the offset / look-ahead grid only partly fits)
     let per_len = ctx.tier.pick(150, 5000);
     ctx.cases("short-pads", 40 * per_len, |ctx, i, rng| {
